@@ -7,6 +7,7 @@ import (
 	"io"
 	"os"
 	"path/filepath"
+	"regexp"
 	"sort"
 	"strings"
 
@@ -150,6 +151,7 @@ func runC16(r *simrt.Run, tier Tier) Outcome {
 		return Outcome{Discard: "tempdir"}
 	}
 	defer os.RemoveAll(root)
+	c16Root = root
 	// program files (content fixed per run)
 	files := map[string]string{}
 	for _, x := range []string{"a", "b", "c"} {
@@ -300,12 +302,23 @@ func runC16(r *simrt.Run, tier Tier) Outcome {
 	return Outcome{Nontrivial: okCmds >= 2 && (pops+failedCmds) >= 1, Sample: map[string]any{"commands": trace}}
 }
 
+// c16Root is the per-run temp directory; it is replaced in messages so that
+// traces (and their hashes) do not depend on its random name.
+var c16Root string
+
 func errStr(err error) string {
 	if err == nil {
 		return "ok"
 	}
-	return "error: " + firstLine(err.Error())
+	s := "error: " + firstLine(err.Error())
+	if c16Root != "" {
+		s = strings.ReplaceAll(s, c16Root, "<root>")
+	}
+	// some library messages print a struct that holds a pointer
+	return hexPtr.ReplaceAllString(s, "0x?")
 }
+
+var hexPtr = regexp.MustCompile(`0x[0-9a-f]{6,}`)
 
 func sortedStringKeys(ms ...map[string]string) []string {
 	seen := map[string]bool{}
